@@ -16,6 +16,8 @@ SHAPES = [
     ("dict", {"d": {"a": {"c": 1}, "b": {"l": [{"f": [2, 1]}, {"c": 3}]}}}),
     ("nest", {"l": [{"l": [{"c": 1}]}, {"t": [{"f": [1, 2]}, {"b": True}, {"s": "x"}]}]}), ("empty", {"l": []}),
     ("fint", {"f": [2, 1]}),
+    # a dict whose keys were NOT inserted in sorted order: public values follow the dict's own order
+    ("dictrev", {"d": {"b": {"c": 7}, "a": {"c": 3}, "c": {"t": [{"f": [1, 2]}, {"c": 4}]}}}),
 ]
 BODIES = ["identity", "reverse", "sumprod", "first", "const"]
 
